@@ -1156,3 +1156,44 @@ impl Decompressor {
         self.archive.close()
     }
 }
+
+/// Verification hooks: pass-through constructors/wrappers used only by the external
+/// verification harness. Compiled only with `--cfg ekg_ragc_verif`; no effect otherwise.
+#[cfg(ekg_ragc_verif)]
+impl Decompressor {
+    /// Build a reader over already-parsed parts (no file access in `open`).
+    pub fn verif_from_parts(
+        archive: Archive,
+        collection: CollectionV3,
+        kmer_length: u32,
+        min_match_len: u32,
+        segment_cache: HashMap<u32, Contig>,
+    ) -> Self {
+        Decompressor {
+            config: DecompressorConfig { verbosity: 0 },
+            archive,
+            collection,
+            segment_cache,
+            _segment_size: 0,
+            kmer_length,
+            min_match_len,
+            archive_path: String::new(),
+        }
+    }
+
+    pub fn verif_reconstruct_contig(&mut self, segments: &[SegmentDesc]) -> Result<Contig> {
+        self.reconstruct_contig(segments)
+    }
+
+    pub fn verif_get_segment(&mut self, desc: &SegmentDesc) -> Result<Contig> {
+        self.get_segment(desc)
+    }
+
+    pub fn verif_unpack_contig(packed_data: &[u8], position_in_pack: usize) -> Result<Contig> {
+        Self::unpack_contig(packed_data, position_in_pack)
+    }
+
+    pub fn verif_reverse_complement_segment(segment: &[u8]) -> Contig {
+        Self::reverse_complement_segment(segment)
+    }
+}
